@@ -65,6 +65,14 @@ def main():
         except Exception as e:  # noqa
             broken[name] = f'{type(e).__name__}: {e}'
             continue
+        if not hasattr(u, 'src'):           # a unit with a translator of its own (SrcIo): `path`, `fns[].qual`, `pins`
+            rel = os.path.relpath(u.path, PKG)
+            for f in getattr(u, 'fns', []):
+                status.setdefault((rel, f.qual), ('translated', set()))[1].add(name)
+            for q in getattr(u, 'pins', {}):
+                r, qq = q.split('::', 1)
+                status.setdefault((r, qq), ('pinned', {name}))
+            continue
         rel = os.path.relpath(u.src.path, PKG)
         for inst in u.insts:
             q = inst.qual
